@@ -2,6 +2,7 @@ package main
 
 import (
 	"encoding/json"
+	"fmt"
 	"os"
 	"os/exec"
 	"path/filepath"
@@ -118,4 +119,85 @@ func selfValidate(c *Ctx, prop, verif string) []map[string]any {
 		out = append(out, res)
 	}
 	return out
+}
+
+// negativeControls runs the check against the behaviour-preserving refactorings kept under
+// /verif/seeded/benign-*: the check must stay silent on each. Patches written for a group of
+// four properties (benign-agents/<round><g>) are run against the properties of that group only.
+func negativeControls(c *Ctx, prop, verif string) map[string]any {
+	seedRoot := filepath.Join(verif, "seeded")
+	var patches []string
+	pn := 0
+	fmt.Sscanf(prop, "C%d", &pn)
+	group := (pn + 3) / 4
+	if ds, err := filepath.Glob(filepath.Join(seedRoot, "benign-agents", "*")); err == nil {
+		sort.Strings(ds)
+		for _, d := range ds {
+			base := filepath.Base(d)
+			if len(base) < 2 || int(base[len(base)-1]-'0') != group {
+				continue
+			}
+			ps, _ := filepath.Glob(filepath.Join(d, "b*.diff"))
+			sort.Strings(ps)
+			patches = append(patches, ps...)
+		}
+	}
+	if ps, err := filepath.Glob(filepath.Join(seedRoot, "benign-[0-9]*", "patch.diff")); err == nil {
+		sort.Strings(ps)
+		patches = append(patches, ps...)
+	}
+	exe, err := os.Executable()
+	if err != nil {
+		return map[string]any{"error": err.Error()}
+	}
+	reFile := regexp.MustCompile(`(?m)^\+\+\+ b/(\S+)`)
+	reRule := regexp.MustCompile(`rule=(\S+) key=`)
+	ran, silent := 0, 0
+	var alarms []string
+	for _, patch := range patches {
+		pb, err := os.ReadFile(patch)
+		if err != nil {
+			continue
+		}
+		tmp, err := os.MkdirTemp("", "atlascheck-negctl-")
+		if err != nil {
+			continue
+		}
+		ok := true
+		for _, m := range reFile.FindAllStringSubmatch(string(pb), -1) {
+			b, err := os.ReadFile(filepath.Join(c.Repo, m[1]))
+			if err != nil {
+				ok = false
+				break
+			}
+			dst := filepath.Join(tmp, m[1])
+			os.MkdirAll(filepath.Dir(dst), 0o755)
+			os.WriteFile(dst, b, 0o644)
+		}
+		if ok {
+			cmd := exec.Command("git", "apply", patch)
+			cmd.Dir = tmp
+			ok = cmd.Run() == nil
+		}
+		if !ok {
+			os.RemoveAll(tmp)
+			continue // does not apply to the tree under analysis (e.g. the tree itself was changed there)
+		}
+		child := exec.Command(exe, "-prop", prop, "-tier", "quick", "-repo", c.Repo, "-verif", verif, "-overlay-dir", tmp, "-out", filepath.Join(tmp, "out"))
+		child.Env = os.Environ()
+		ob, _ := child.CombinedOutput()
+		ran++
+		if child.ProcessState.ExitCode() == 0 {
+			silent++
+		} else {
+			rel, _ := filepath.Rel(seedRoot, patch)
+			var rs []string
+			for _, m := range reRule.FindAllStringSubmatch(string(ob), -1) {
+				rs = append(rs, m[1])
+			}
+			alarms = append(alarms, rel+": "+strings.Join(rs, ","))
+		}
+		os.RemoveAll(tmp)
+	}
+	return map[string]any{"patches_run": ran, "silent": silent, "alarms": alarms, "note": "behaviour-preserving refactorings written by independent agents; the check must be silent on each (an alarm here is a defect of the checker, not of the tree, and does not change the verdict)"}
 }
